@@ -236,14 +236,21 @@ let rec gen (s : schema) (size : int) : val0 =
           end) (klist_to_list fs))
   | SVar alts -> let l = vlist_to_list alts in let i = below (List.length l) in
     let (_, fs) = List.nth l i in VVar (nat_of_int i, List.map (fun f -> gen f (size - 1)) (slist_to_list fs))
-  | SArrOf (lo, s') -> let n = coll_len (int_of_n lo) size in VList (List.init n (fun _ -> gen s' (size - 2)))
+  | SArrOf (lo, s') ->
+    let heavy = (match s' with SMap fs -> List.length (klist_to_list fs) > 6 | _ -> false) in
+    let n = coll_len (int_of_n lo) size in
+    let n = if heavy then min n 3 else n in
+    VList (List.init n (fun _ -> gen s' (size - 2)))
   | SSetOf s' -> let n = coll_len 0 size in VList (dedup s' (List.init n (fun _ -> gen s' (size - 2))))
   | SMapOf (lo, ord, k, v) ->
     let n = coll_len (int_of_n lo) size in
     let l = List.init n (fun _ -> (gen k (size - 2), gen v (size - 2))) in
     let l = dedup_keys k l in
+    (* a Vec-backed map may repeat a key (adjacent, as every writer emits them) *)
+    let l = if ord = KMulti && below 3 = 0 then (match l with (a, b) :: r -> (a, b) :: (a, gen v (size - 2)) :: r | [] -> []) else l in
     let l = match ord with
       | KInsertion -> l
+      | KMulti -> l
       | KBytewise -> List.sort (fun (a, _) (b, _) -> cmp_bytes (enc k a) (enc k b)) l
       | KRewardAddr -> List.sort (fun (a, _) (b, _) -> cmp_bytes (reward_sort_key (enc k a)) (reward_sort_key (enc k b))) l in
     VMap l
@@ -260,14 +267,25 @@ let rec gen (s : schema) (size : int) : val0 =
     let id = int_of_n id in
     if id = 1 then VBytes (gen_address ())
     else if id = 2 then VBytes (gen_reward_address ())
+    else if id = 6 then VBytes (n_of_int (1 + below 255) :: gen_bytes (match below 4 with 0 -> 8 | 1 -> 63 | 2 -> 64 + below 3 | _ -> 8 + below 120))
+    else if id = 7 then (match gen s' size with
+        | VList (_ :: rest) -> VList (VNat (n_of_bz (if below 3 = 0 then BZ.of_int 128 else BZ.add (BZ.of_int 128) (BZ.shift_right (bz_u64 ()) (1 + below 63)))) :: rest)
+        | v -> v)
     else begin
+      (* rejection sampling into the writer image (Coq predicate writer_form) *)
       let v = ref (gen s' size) in
       let tries = ref 0 in
-      while not (writer_form (n_of_int id) !v) && !tries < 50 do v := gen s' (max size 1); incr tries done;
-      !v
+      while not (writer_form (n_of_int id) !v) && !tries < 50 do v := gen s' (max size 2 + !tries / 10); incr tries done;
+      (* a multi-asset value is only written when some policy has an asset: make one if sampling found none *)
+      if id = 5 && not (writer_form (n_of_int id) !v) then
+        VList [VNat (n_of_bz (gen_uint 64)); VMap [(VBytes (gen_bytes 28), VMap [(VBytes (gen_bytes (below 33)), VNat (n_of_bz (gen_uint 64)))])]]
+      else !v
     end
   | SBBytes -> let len = (match below 8 with 0 -> 0 | 1 -> 1 | 2 -> 63 | 3 -> 64 | 4 -> 65 | 5 -> 128 | 6 -> 129 + below 100 | _ -> below 64) in
     VBytes (gen_bytes len)
+  | SArrOpt (fs, o) ->
+    let l = List.map (fun f -> gen f (size - 1)) (slist_to_list fs) in
+    if below 2 = 0 then VAlt (nat_of_int 0, VList l) else VAlt (nat_of_int 1, VList (gen o (size - 1) :: l))
 and dedup s' l =
   let seen = Hashtbl.create 16 in
   List.filter (fun v -> let e = enc s' v in if Hashtbl.mem seen e then false else (Hashtbl.add seen e (); true)) l
@@ -479,7 +497,7 @@ let gen_ops ?(wits : string = "") (body : string) (sign_ok : bool) : string list
 
 let gen_tx_parts () : string * string * string * string option * noise =
   let nz = pick_noise () in
-  let size = [| 1; 2; 3; 4; 5; 6 |].(below 6) in
+  let size = [| 1; 2; 2; 3; 4; 5 |].(below 6) in
   let body = gen_body nz size in
   if List.length !body_pool < 40 && chance 30 then body_pool := gen_body quiet 3 :: !body_pool;
   let wits = gen_wits nz size in
@@ -629,21 +647,21 @@ let gen_mode seed tier out =
   let scale = if tier = "thorough" then 8 else 1 in
   List.iter (fun l -> output_string oc (l ^ "\n")) (fixed_cases ());
   (* stream 1: valid transactions re-encoded with noise, with operation sequences *)
-  for _ = 1 to 420 * scale do
+  for _ = 1 to 300 * scale do
     let parts = gen_tx_parts () in
     let (body, wits, _, _, _) = parts in
     let s = assemble parts in
     Printf.fprintf oc "tx %s %s\n" (hex_of_string s) (String.concat " " (gen_ops ~wits body true))
   done;
   (* stream 2: the same, then damaged *)
-  for _ = 1 to 160 * scale do
+  for _ = 1 to 110 * scale do
     let parts = gen_tx_parts () in
     let (body, _, _, _, _) = parts in
     let s = mutate (assemble parts) in
     Printf.fprintf oc "tx %s %s\n" (hex_of_string s) (String.concat " " (gen_ops body false))
   done;
   (* stream 3: the other constructors, the body view *)
-  for _ = 1 to 60 * scale do
+  for _ = 1 to 45 * scale do
     let (body, wits, valid, aux, _) = gen_tx_parts () in
     let junk = if chance 15 then "\x00" else "" in
     (match below 3 with
@@ -676,14 +694,14 @@ let gen_mode seed tier out =
      | _ -> ())
   done;
   (* stream 4: datums *)
-  for i = 1 to 260 * scale do
+  for i = 1 to 200 * scale do
     let nz = pick_noise () in
     let size = [| 0; 1; 2; 3; 4; 6 |].(i mod 6) in
     let s = nstr { nz with untag = 0; shuffle = 0 } (gen_item (plutusData depth) size) in
     let s = if chance 15 then mutate s else if chance 10 then s ^ "\x01" else s in
     Printf.fprintf oc "pd %s\n" (hex_of_string s)
   done;
-  for i = 1 to 40 * scale do
+  for i = 1 to 30 * scale do
     let nz = pick_noise () in
     let s = nstr { nz with shuffle = 0 } (ITag (n_of_int 258, gen_item (plutusList depth) (1 + i mod 4))) in
     Printf.fprintf oc "pdl %s\n" (hex_of_string (if chance 10 then mutate s else s))
